@@ -11,9 +11,9 @@ import (
 	"github.com/itchio/lake"
 	"github.com/itchio/lake/pools/fspool"
 	"github.com/itchio/savior/seeksource"
-	pkgerrors "github.com/pkg/errors"
 	"github.com/itchio/wharf/pwr/bowl"
 	"github.com/itchio/wharf/pwr/patcher"
+	pkgerrors "github.com/pkg/errors"
 	"verif/lib"
 )
 
@@ -93,11 +93,11 @@ func c03Family(seed uint64, family string) *lib.Pair {
 		p.Old.PutFile("c.bin", c)
 		p.Old.PutFile("empty-old.bin", nil)
 		p.Old.PutFile("gone.bin", lib.RandomBytes(5000, r.Uint64()))
-		p.New.PutFile("dir/a.bin", edit(a, r.Range(2, 5)))         // patched in place: long data runs + block ranges
-		p.New.PutFile("dir/b-renamed.bin", b)                        // whole-file copy
-		p.New.PutFile("dir/b.bin", edit(b, 2))                       // patched and used as rename source
-		p.New.PutFile("c.bin", c)                                    // untouched
-		p.New.PutFile("empty-new.bin", nil)                          // empty file
+		p.New.PutFile("dir/a.bin", edit(a, r.Range(2, 5))) // patched in place: long data runs + block ranges
+		p.New.PutFile("dir/b-renamed.bin", b)              // whole-file copy
+		p.New.PutFile("dir/b.bin", edit(b, 2))             // patched and used as rename source
+		p.New.PutFile("c.bin", c)                          // untouched
+		p.New.PutFile("empty-new.bin", nil)                // empty file
 		p.New.PutFile("empty-old.bin", lib.RandomBytes(777, r.Uint64()))
 		p.New.PutFile("new/fresh.bin", lib.RandomBytes(int64(r.Range(1, 5*lib.BS)), r.Uint64()))
 		p.New.PutFile("z-mix.bin", append(append([]byte(nil), a[:3*lib.BS]...), b[:2*lib.BS]...))
@@ -683,14 +683,14 @@ func zeroFrom(path string, from, to int64) {
 
 func init() {
 	lib.Register(&lib.Property{
-		ID:    "C03",
-		Level: "fault_enumeration",
-		Rule: "per (patch family, bowl, plain/optimized, compression): one uninterrupted always-save run records every checkpoint (gob-encoded at Save time) and snapshots the on-disk state there; then EVERY checkpoint index k (sampled above MaxK) x lag (disk state taken at checkpoint k+lag) x forward-only damage variant (in-progress file truncated / zero-filled at {off_k, off_k+1, midpoint, end-1}, later files removed / emptied / halved) is resumed in a brand-new patcher and bowl from the gob-decoded checkpoint, committed and compared with the new build; plus runs aborted mid-operation by an injected read error on the old build and chains of up to 3 further interruptions with a random save schedule. distinct = distinct (combination, k-class, lag, damage label, chain) tuples",
+		ID:          "C03",
+		Level:       "fault_enumeration",
+		Rule:        "per (patch family, bowl, plain/optimized, compression): one uninterrupted always-save run records every checkpoint (gob-encoded at Save time) and snapshots the on-disk state there; then EVERY checkpoint index k (sampled above MaxK) x lag (disk state taken at checkpoint k+lag) x forward-only damage variant (in-progress file truncated / zero-filled at {off_k, off_k+1, midpoint, end-1}, later files removed / emptied / halved) is resumed in a brand-new patcher and bowl from the gob-decoded checkpoint, committed and compared with the new build; plus runs aborted mid-operation by an injected read error on the old build and chains of up to 3 further interruptions with a random save schedule. distinct = distinct (combination, k-class, lag, damage label, chain) tuples",
 		Assumptions: []string{"crash = loss of any suffix of the bytes written after the checkpoint (no reordering inside the kernel); fsync does what it says", "crash points lie in the patching phase, the latest being 'patching finished, Commit not started'", "the snapshot taken inside Save equals the state a stop at that checkpoint leaves (same process, deterministic patcher)"},
-		Cases:      c03Cases,
-		Run:        c03Run,
-		Batch:      1,
-		CaseBudget: 600 * 1e9,
+		Cases:       c03Cases,
+		Run:         c03Run,
+		Batch:       1,
+		CaseBudget:  600 * 1e9,
 		Post: func(rs []lib.Result, ev *lib.Evidence) []string {
 			var out []string
 			sets, _ := ev.Coverage["observed_sets"].(map[string]int)
